@@ -43,10 +43,10 @@ XStatus(x) == [e \in Ents |-> IF e = "wf" THEN x.wf ELSE IF e \in Stages THEN x.
 EvRec(r)   == [seq |-> r.seq, typ |-> r.typ, ent |-> r.ent, st |-> r.st]
 NewRows(S) == [i \in DOMAIN S.nev |-> EvRec(S.nev[i])]
 
-LoggedP(S) == /\ status' = XStatus(S.x)                 \* the step lands in the logged state
+LoggedP(S) == /\ status' = (IF S.same THEN status ELSE XStatus(S.x))   \* the step lands in the logged state
               /\ ev' = ev \o NewRows(S)
               /\ Len(ev') = S.evn
-LoggedSame(S) == /\ status = XStatus(S.x) /\ S.nev = <<>> /\ Len(ev) = S.evn
+LoggedSame(S) == /\ (S.same \/ status = XStatus(S.x)) /\ S.nev = <<>> /\ Len(ev) = S.evn
 
 TraceInit ==
   /\ tid \in 1..Len(Traces)
@@ -58,13 +58,14 @@ TraceInit ==
 IsEvent(e) == l <= Len(Events_) /\ Ev.e = e /\ Ev.d = 0 /\ l' = l + 1 /\ UNCHANGED tid
 Stay == UNCHANGED vars
 
-Changed(S) == {e \in Ents : XStatus(S.x)[e] # status[e]}
+NewStatus(S) == IF S.same THEN status ELSE XStatus(S.x)
+Changed(S) == {e \in Ents : NewStatus(S)[e] # status[e]}
 TCommit ==
   /\ IsEvent("commit")
   /\ \/ OtherCommit(W, Ev.mark)
      \/ StartWorkflowCommit(W) \/ StartStageClaim(W) \/ StartStageReplan(W) \/ StartStagePlan(W)
      \/ StartTaskCommit(W) \/ CancelStageCommit(W)
-     \/ ForceCommit(W, [e \in Changed(Ev) |-> XStatus(Ev.x)[e]], Ev.mark)
+     \/ ForceCommit(W, [e \in Changed(Ev) |-> NewStatus(Ev)[e]], Ev.mark)
      \/ \E e0 \in OwnEvent(W) : RecordOwn(W, e0)
      \/ CompleteTaskCommit(W) \/ CompleteStageCommit(W) \/ CompleteStageErrorCommit(W)
      \/ SkipStageCommit(W) \/ CompleteWorkflowCommit(W)
@@ -143,11 +144,11 @@ TAdopt ==
   /\ l <= Len(Events_) /\ Ev.d = 1 /\ l' = l + 1 /\ UNCHANGED <<tid, prog, cnt>>
   /\ act' = Label("Adopt", W, FALSE)
   /\ IF HasX
-       THEN /\ status' = XStatus(Ev.x) /\ ev' = ev \o NewRows(Ev)
+       THEN /\ status' = NewStatus(Ev) /\ ev' = ev \o NewRows(Ev)
             /\ wr' = [e \in DOMAIN wr |-> IF e \in Changed(Ev) THEN AdoptWriter ELSE wr[e]]
-            /\ done' = [all  |-> Bump(done.all, {<<e, XStatus(Ev.x)[e]>> : e \in Changed(Ev)}),
+            /\ done' = [all  |-> Bump(done.all, {<<e, NewStatus(Ev)[e]>> : e \in Changed(Ev)}),
                         step |-> IF Ev.h \in {"CompleteTask", "CompleteStage"}
-                                 THEN Bump(done.step, {<<e, XStatus(Ev.x)[e]>> : e \in Changed(Ev) \cap {cur[W].e}})
+                                 THEN Bump(done.step, {<<e, NewStatus(Ev)[e]>> : e \in Changed(Ev) \cap {cur[W].e}})
                                  ELSE done.step]
        ELSE UNCHANGED <<status, ev, wr, done>>
   /\ bus' = IF Ev.e = "pub" THEN Append(bus, EvRec(Ev.ev)) ELSE bus
